@@ -298,6 +298,15 @@ def cases(tier, seed):
                 add(rec, "plain", 0, 1 if big else 3)
             if ("GPOS" in rec["tables"] and not big) and (rich and rnd.random() < 0.5 or rnd.random() < 0.08):
                 add(rec, rnd.choice(["kern", "kern+gpos"]), 0, 2)
+    # variable fonts with (derived) vertical metrics variations: implicit advance-height map, interleaved VOrgMap/TsbMap
+    for rec in recs:
+        if rec["variable"] and set(rec["tables"]) & {"VVAR", "HVAR"} and rec["size"] < 100000:
+            for b in range(6 if T else 2):
+                add(rec, "vvar", b, 5 if T else 3)
+    # generated fonts whose glyph closure needs several rounds (shared nested lookups, producers in later lookups)
+    for k in range(400 if T else 70):
+        out.append({"id": "genfea:%d" % k, "path": "gen:c07_fea/%d" % k, "member": None, "variant": "genfea", "gen": k,
+                    "batch": 0, "n": 6 if T else 4, "seed": seed, "tier": tier, "timeout": CASE_TIMEOUT})
     return out
 
 
@@ -322,9 +331,86 @@ def _add_kern(font, rnd):
     font["kern"] = k
 
 
+def _derive_vvar(f, rnd):
+    """Give a variable font vertical metrics variations in the shapes the corpus lacks: a VVAR (cloned from HVAR when
+    absent) whose advance heights use the *implicit* glyph-id -> VarData[0] row mapping (no AdvHeightMap), plus a
+    VOrgMap/TsbMap whose entries point at VarData[0] rows interleaved with the advance rows; vhea/vmtx are added when
+    missing.  Only the input is prepared here; nothing of this is used as an oracle."""
+    import copy
+
+    from fontTools.ttLib import newTable
+    from fontTools.ttLib.tables import otTables as ot
+    from fontTools.varLib import builder
+
+    order = f.getGlyphOrder()
+    if "VVAR" not in f:
+        hv = f["HVAR"].table
+        t = ot.VVAR()
+        t.Version = 0x00010000
+        t.VarStore = copy.deepcopy(hv.VarStore)
+        t.AdvHeightMap = copy.deepcopy(hv.AdvWidthMap) if hv.AdvWidthMap else None
+        t.TsbMap = t.BsbMap = t.VOrgMap = None
+        f["VVAR"] = newTable("VVAR")
+        f["VVAR"].table = t
+    t = f["VVAR"].table
+    store = t.VarStore
+    if "vmtx" not in f:
+        vhea = newTable("vhea")
+        vhea.tableVersion = 0x00011000
+        vhea.ascent, vhea.descent, vhea.lineGap = 500, -500, 0
+        vhea.advanceHeightMax = 1000 + 7 * len(order)
+        vhea.minTopSideBearing = vhea.minBottomSideBearing = 0
+        vhea.yMaxExtent = 1000
+        vhea.caretSlopeRise, vhea.caretSlopeRun, vhea.caretOffset = 0, 1, 0
+        vhea.reserved0 = vhea.reserved1 = vhea.reserved2 = vhea.reserved3 = vhea.reserved4 = 0
+        vhea.metricDataFormat = 0
+        vhea.numberOfVMetrics = len(order)
+        f["vhea"] = vhea
+        vmtx = newTable("vmtx")
+        vmtx.metrics = {g: (1000 + 7 * i, 10) for i, g in enumerate(order)}
+        f["vmtx"] = vmtx
+    shape = []
+    nreg = len(store.VarRegionList.Region)
+    if t.AdvHeightMap and nreg and rnd.random() < 0.8:
+        def full(vi):
+            vec = [0] * nreg
+            if vi != 0xFFFFFFFF and (vi >> 16) < len(store.VarData) and (vi & 0xFFFF) < len(store.VarData[vi >> 16].Item):
+                vd = store.VarData[vi >> 16]
+                for ri, d in zip(vd.VarRegionIndex, vd.Item[vi & 0xFFFF]):
+                    vec[ri] = d
+            return vec
+
+        rows = [full(t.AdvHeightMap.mapping.get(g, 0xFFFFFFFF)) for g in order]
+        vd0 = builder.buildVarData(list(range(nreg)), rows, optimize=False)
+        store.VarData.insert(0, vd0)
+        store.VarDataCount = len(store.VarData)
+        for name in ("TsbMap", "BsbMap", "VOrgMap"):
+            m = getattr(t, name, None)
+            if m:
+                m.mapping = {g: (v if v == 0xFFFFFFFF else v + 0x10000) for g, v in m.mapping.items()}
+        t.AdvHeightMap = None
+        shape.append("implicit-advance-map")
+    if t.AdvHeightMap is None and len(order) > 2 and rnd.random() < 0.75:
+        name = "VOrgMap" if "VORG" in f else rnd.choice(["TsbMap", "BsbMap"])
+        rows0 = len(store.VarData[0].Item)
+        setattr(t, name, builder.buildVarIdxMap([rnd.randrange(min(rows0, len(order))) for _g in order], order))
+        shape.append(name + "-into-advance-rows")
+    return shape
+
+
 def _build_original(case):
-    data0 = corpus.font_bytes(case["path"], case["member"])
     v = case["variant"]
+    if v == "genfea":
+        from vmon.gen import c07_fea
+
+        prog = c07_fea.program(random.Random("genfea/%s/%s" % (case["gen"], case["seed"])))
+        case["_prog"] = prog
+        data = c07_fea.build(prog)
+        f = corpus.open_bytes(data)
+        order = list(f.getGlyphOrder())
+        f.close()
+        return data, order
+    data0 = corpus.font_bytes(case["path"], case["member"])
     if v == "plain":
         f = corpus.open_bytes(data0)
         order = list(f.getGlyphOrder())
@@ -333,6 +419,8 @@ def _build_original(case):
         return data0, order
     f = corpus.open_bytes(data0)
     corpus.add_pua(f)
+    if v == "vvar":
+        case["_vvar_shape"] = _derive_vvar(f, random.Random("vvar/%s/%s/%s" % (case["path"], case["batch"], case["seed"])))
     if v in ("kern", "kern+gpos"):
         _add_kern(f, random.Random("kern/" + case["path"]))
         if v == "kern" and "GPOS" in f:
@@ -535,6 +623,8 @@ def _run(case, ctx):
             else:
                 req["unicodes"] = sorted(set(req["unicodes"]) | {extra})
         optd = _draw_options(rnd, S0, tables0, len(orig_order))
+        if case["variant"] == "vvar" and rnd.random() < 0.35:
+            optd["retain_gids"] = True
         try:
             _one(case, ctx, rnd, kind, req, optd, orig_bytes, orig_order, oindex, S0, h0, nominal, tables0, bad_tables0, nokern_cache)
         except LibRaised:
@@ -587,6 +677,7 @@ def _one(case, ctx, rnd, kind, req, optd, orig_bytes, orig_order, oindex, S0, h0
     from fontTools.ttLib import TTFont
 
     desc = {"font": case["path"], "variant": case["variant"], "kind": kind, "options": optd,
+            "generated_fea": (case.get("_prog") or {}).get("fea"), "derived_vvar": case.get("_vvar_shape"),
             "unicodes": ["U+%04X" % c for c in req["unicodes"][:60]], "n_unicodes": len(req["unicodes"]),
             "glyphs": req["glyphs"][:40], "gids": req["gids"][:40], "text": req["text"][:40]}
     opts = _options(optd)
@@ -726,6 +817,8 @@ def _one(case, ctx, rnd, kind, req, optd, orig_bytes, orig_order, oindex, S0, h0
     locs = H.axis_locations(hc, rnd, n_random=1 if quick else 2, corners=not quick)
     variable = len(locs) > 1
     vertical = "vmtx" in tables0 and "vmtx" in S1.tables
+    if vertical and "VVAR" in tables0 and "VVAR" in S1.tables:
+        vertical = "origin"  # also compare HarfBuzz' vertical origin (VORG/VOrgMap, or glyph extents + top side bearing)
     notdef = orig_order[0] if "glyf" in tables0 else ".notdef"
     n_outline = 0
     for li, loc in enumerate(locs):
@@ -736,7 +829,8 @@ def _one(case, ctx, rnd, kind, req, optd, orig_bytes, orig_order, oindex, S0, h0
                 continue
             ctx.judged()
             n_outline += 1
-            d = H.glyph_diff(ha, oindex[g], hb_, sindex[g], vertical)
+            vmode = True if (vertical == "origin" and g == notdef and not opts.notdef_outline) else vertical
+            d = H.glyph_diff(ha, oindex[g], hb_, sindex[g], vmode)
             if d is None:
                 continue
             field, detail = d
